@@ -27,6 +27,103 @@ type covCase struct {
 	Seed   uint64
 	Rep    int  // 0 Dense, 1 strided view, 2 At-only, 3 transpose of a d×n Dense
 	DstPre bool // dst already sized and holding stale values
+	// DstView: every matrix / slice destination is a view into a larger
+	// sentinel-filled parent (SymDense.SliceSym, Dense.Slice, a slice with spare
+	// capacity): same bits as with a fresh destination, parent untouched.
+	DstView bool `json:",omitempty"`
+}
+
+// sentinel is the value of parent element (i,j) outside a destination view.
+func sentinel(i, j int) float64 { return -(12345 + 37*float64(i) + float64(j)) }
+
+// symView returns a d×d view at offset off of a sentinel-filled parent.
+func symView(d, off, extra int) (view, parent *mat.SymDense) {
+	p := d + off + extra
+	parent = mat.NewSymDense(p, nil)
+	for i := 0; i < p; i++ {
+		for j := i; j < p; j++ {
+			parent.SetSym(i, j, sentinel(i, j))
+		}
+	}
+	return parent.SliceSym(off, off+d).(*mat.SymDense), parent
+}
+
+// symParentIntact reports the first parent element outside the view that changed.
+func symParentIntact(parent *mat.SymDense, d, off int) (ok bool, i, j int) {
+	p := parent.SymmetricDim()
+	for i := 0; i < p; i++ {
+		for j := i; j < p; j++ {
+			if i >= off && i < off+d && j >= off && j < off+d {
+				continue
+			}
+			if parent.At(i, j) != sentinel(i, j) {
+				return false, i, j
+			}
+		}
+	}
+	return true, 0, 0
+}
+
+// denseView returns an r×c view at (ro,co) of a sentinel-filled parent.
+func denseView(r, c, ro, co int) (view, parent *mat.Dense) {
+	parent = mat.NewDense(r+ro+2, c+co+3, nil)
+	pr, pc := parent.Dims()
+	for i := 0; i < pr; i++ {
+		for j := 0; j < pc; j++ {
+			parent.Set(i, j, sentinel(i, j))
+		}
+	}
+	return parent.Slice(ro, ro+r, co, co+c).(*mat.Dense), parent
+}
+
+func denseParentIntact(parent *mat.Dense, r, c, ro, co int) (ok bool, i, j int) {
+	pr, pc := parent.Dims()
+	for i := 0; i < pr; i++ {
+		for j := 0; j < pc; j++ {
+			if i >= ro && i < ro+r && j >= co && j < co+c {
+				continue
+			}
+			if parent.At(i, j) != sentinel(i, j) {
+				return false, i, j
+			}
+		}
+	}
+	return true, 0, 0
+}
+
+// sliceView returns buf[off:off+n] of a sentinel-filled buffer with spare capacity.
+func sliceView(n, off int) (view, buf []float64) {
+	buf = make([]float64, n+off+3)
+	for i := range buf {
+		buf[i] = sentinel(0, i)
+	}
+	return buf[off : off+n], buf
+}
+
+func sliceBufIntact(buf []float64, n, off int) (ok bool, i int) {
+	for i := range buf {
+		if (i < off || i >= off+n) && buf[i] != sentinel(0, i) {
+			return false, i
+		}
+	}
+	return true, 0
+}
+
+// sameDense reports whether a and b have the same shape and bits.
+func sameDense(a, b mat.Matrix) bool {
+	ar, ac := a.Dims()
+	br, bc := b.Dims()
+	if ar != br || ac != bc {
+		return false
+	}
+	for i := 0; i < ar; i++ {
+		for j := 0; j < ac; j++ {
+			if !vk.SameBits(a.At(i, j), b.At(i, j)) {
+				return false
+			}
+		}
+	}
+	return true
 }
 
 func (c covCase) columns() [][]float64 {
@@ -92,17 +189,21 @@ func (c covCase) operand(cols [][]float64) mat.Matrix {
 }
 
 func checkCov(c covCase) *vk.Failure {
+	var deferred *vk.Failure
 	n, d := c.N, c.D
 	nf := float64(n)
 	cols := c.columns()
 	w := expandWeights(n, c.WC, c.Seed^0x55)
 	vk.Class(fmt.Sprintf("covmat w=%s d=%s rep=%d", wcName[c.WC], dcName[c.DC], c.Rep))
+	if c.DstView {
+		vk.Class("covmat destinations are views of sentinel-filled parents")
+	}
 	ties := false
 	for _, col := range cols {
 		ties = ties || hasTies(col)
 	}
 	if n >= 3 && (w != nil || ties) {
-		vk.NonTrivial("covmat", c.WC, c.DC, nClass(n), d, c.Rep, c.DstPre)
+		vk.NonTrivial("covmat", c.WC, c.DC, nClass(n), d, c.Rep, c.DstPre, c.DstView)
 	}
 	vk.Sample("covmat", c)
 	ctx := fmt.Sprintf("n=%d d=%d seed=%d", n, d, c.Seed)
@@ -110,7 +211,14 @@ func checkCov(c covCase) *vk.Failure {
 	if W.f()-1 < 0.5 {
 		return nil
 	}
+	const symOff = 1
+	var symParents []*mat.SymDense
 	newDst := func() *mat.SymDense {
+		if c.DstView {
+			v, parent := symView(d, symOff, 2)
+			symParents = append(symParents, parent)
+			return v
+		}
 		if !c.DstPre {
 			return &mat.SymDense{}
 		}
@@ -141,11 +249,21 @@ func checkCov(c covCase) *vk.Failure {
 	for i := 0; i < d; i++ {
 		for j := 0; j < d; j++ {
 			if !vk.SameBits(cov.At(i, j), ref.At(i, j)) || !vk.SameBits(corr.At(i, j), refCorr.At(i, j)) {
-				return vk.Failf("covariance-matrix-representation", "(%d,%d): %v vs Dense %v; corr %v vs %v %s", i, j, cov.At(i, j), ref.At(i, j), corr.At(i, j), refCorr.At(i, j), ctx)
+				key := "covariance-matrix-representation"
+				if c.DstView {
+					key = "matrix-destination-view"
+				}
+				return vk.Failf(key, "(%d,%d): %v vs Dense operand and fresh dst %v; corr %v vs %v (dst view=%v) %s", i, j, cov.At(i, j), ref.At(i, j), corr.At(i, j), refCorr.At(i, j), c.DstView, ctx)
 			}
 			if !vk.SameBits(cov.At(i, j), cov.At(j, i)) {
 				return vk.Failf("covariance-matrix-symmetry", "(%d,%d) %s", i, j, ctx)
 			}
+		}
+	}
+	for k, parent := range symParents {
+		if ok, i, j := symParentIntact(parent, d, symOff); !ok {
+			return vk.Failf("matrix-destination-view-parent-modified", "%s: dst is the %dx%d SliceSym view at offset %d of a %dx%d SymDense; parent element (%d,%d) outside the view was overwritten: %v %s",
+				[]string{"CovarianceMatrix", "CorrelationMatrix"}[k], d, d, symOff, parent.SymmetricDim(), parent.SymmetricDim(), i, j, parent.At(i, j), ctx)
 		}
 	}
 	// entries against the double-double formula and against the scalar functions
@@ -199,6 +317,9 @@ func checkCov(c covCase) *vk.Failure {
 			}
 			if f := failClose("correlation-matrix-vs-scalar", gr, stat.Correlation(cols[i], cols[j], w), 2*tr, fmt.Sprintf("(%d,%d) %s", i, j, ctx)); f != nil {
 				return f
+			}
+			if math.Abs(gr) > 1 && deferred == nil {
+				deferred = vk.Failf("correlation-matrix-exceeds-one", "CorrelationMatrix (%d,%d) = %.17g, |r|-1 = %.3g %s", i, j, gr, math.Abs(gr)-1, ctx)
 			}
 			if Wf*b.rx.em*b.rx.em/Sx < 1e-8 && Wf*b.ry.em*b.ry.em/Sy < 1e-8 && math.Abs(gr) > 1+8*(nf+8)*u {
 				return vk.Failf("correlation-matrix-range", "(%d,%d)=%v %s", i, j, gr, ctx)
@@ -269,7 +390,7 @@ func checkCov(c covCase) *vk.Failure {
 	wIn := cloneF(w)
 	if !pc.PrincipalComponents(x, wIn) {
 		vk.Inconclusive("pca-svd-failed")
-		return nil
+		return deferred
 	}
 	k := min(n, d)
 	vars := pc.VarsTo(nil)
@@ -287,6 +408,27 @@ func checkCov(c covCase) *vk.Failure {
 	}
 	var vecs mat.Dense
 	pc.VectorsTo(&vecs)
+	if c.DstView && len(vars) == k {
+		// destinations that are views: same bits, parent untouched
+		vv, vparent := denseView(d, k, 1, 2)
+		pc.VectorsTo(vv)
+		if !sameDense(vv, &vecs) {
+			return vk.Failf("pca-vectors-destination-view", "VectorsTo into a Dense.Slice view differs from a fresh destination %s", ctx)
+		}
+		if ok, i, j := denseParentIntact(vparent, d, k, 1, 2); !ok {
+			return vk.Failf("pca-vectors-destination-view-parent-modified", "parent (%d,%d)=%v %s", i, j, vparent.At(i, j), ctx)
+		}
+		sv, sbuf := sliceView(k, 2)
+		got := pc.VarsTo(sv)
+		for i := range vars {
+			if len(got) != k || !vk.SameBits(got[i], vars[i]) || &got[0] != &sv[0] {
+				return vk.Failf("pca-vars-destination-view", "VarsTo(dst with spare capacity)=%v, fresh %v %s", got, vars, ctx)
+			}
+		}
+		if ok, i := sliceBufIntact(sbuf, k, 2); !ok {
+			return vk.Failf("pca-vars-destination-view-parent-modified", "buffer element %d outside dst overwritten %s", i, ctx)
+		}
+	}
 	if len(vars) != k {
 		return vk.Failf("pca-vars-length", "%d want %d %s", len(vars), k, ctx)
 	}
@@ -349,19 +491,20 @@ func checkCov(c covCase) *vk.Failure {
 	if f := vk.MustPanic("pca-weights-length", func() { var p stat.PC; p.PrincipalComponents(x, make([]float64, n+1)) }); f != nil {
 		return f
 	}
-	return nil
+	return deferred
 }
 
 func TestCovMat(t *testing.T) {
 	vk.Run(t, "covmat", vk.Opts{Quick: 12000, Thorough: 200000, NoCrumb: true}, func(t *rapid.T) covCase {
 		return covCase{
-			N:      vk.Dim(t, "n", 2, 60, 3, 8),
-			D:      rapid.IntRange(1, 6).Draw(t, "d"),
-			DC:     rapid.SampledFrom([]int{dcTies, dcDyadic, dcGauss, dcGauss, dcWide, dcConst}).Draw(t, "dc"),
-			WC:     rapid.IntRange(0, nWC-1).Draw(t, "wc"),
-			Seed:   rapid.Uint64().Draw(t, "seed"),
-			Rep:    rapid.IntRange(0, 3).Draw(t, "rep"),
-			DstPre: rapid.Bool().Draw(t, "dstpre"),
+			N:       vk.Dim(t, "n", 2, 60, 3, 8),
+			D:       rapid.IntRange(1, 6).Draw(t, "d"),
+			DC:      rapid.SampledFrom([]int{dcTies, dcDyadic, dcGauss, dcGauss, dcWide, dcConst}).Draw(t, "dc"),
+			WC:      rapid.IntRange(0, nWC-1).Draw(t, "wc"),
+			Seed:    rapid.Uint64().Draw(t, "seed"),
+			Rep:     rapid.IntRange(0, 3).Draw(t, "rep"),
+			DstPre:  rapid.Bool().Draw(t, "dstpre"),
+			DstView: rapid.IntRange(0, 2).Draw(t, "dstview") == 0,
 		}
 	}, checkCov)
 }
@@ -467,6 +610,30 @@ func checkMaha(c mahaCase) *vk.Failure {
 	if c.Same && got != 0 {
 		return vk.Failf("mahalanobis-self", "%v %s", got, ctx)
 	}
+	// operands that are strided views (a column and a row-vector slice of
+	// sentinel-filled matrices): same bits, operands untouched
+	{
+		_, xp := denseView(d, 1, 1, 1)
+		_, yp := denseView(d, 1, 2, 0)
+		for i := 0; i < d; i++ {
+			xp.Set(1+i, 1, xv[i])
+			yp.Set(2+i, 0, yv[i])
+		}
+		xs := xp.ColView(1).(*mat.VecDense).SliceVec(1, 1+d)
+		ys := yp.ColView(0).(*mat.VecDense).SliceVec(2, 2+d)
+		if g2 := stat.Mahalanobis(xs, ys, &chol); !vk.SameBits(g2, got) {
+			return vk.Failf("mahalanobis-strided-operands", "%v with column views, %v with contiguous vectors %s", g2, got, ctx)
+		}
+		for i := 0; i < d; i++ {
+			xp.Set(1+i, 1, sentinel(1+i, 1))
+			yp.Set(2+i, 0, sentinel(2+i, 0))
+		}
+		ok1, _, _ := denseParentIntact(xp, 0, 0, 0, 0)
+		ok2, _, _ := denseParentIntact(yp, 0, 0, 0, 0)
+		if !ok1 || !ok2 {
+			return vk.Failf("mahalanobis-modifies-operands", "%s", ctx)
+		}
+	}
 	back := stat.Mahalanobis(mat.NewVecDense(d, yv), mat.NewVecDense(d, xv), &chol)
 	if f := failClose("mahalanobis-symmetry", back, got, 2*tol, ctx); f != nil {
 		return f
@@ -511,6 +678,7 @@ func invSqrtSym(s []float64, d int) (out []float64, cond float64) {
 }
 
 func checkCC(c ccCase) *vk.Failure {
+	var deferred *vk.Failure
 	n, xd, yd := c.N, c.XD, c.YD
 	r := vk.NewSplitMix(c.Seed)
 	xc := make([][]float64, xd)
@@ -653,7 +821,48 @@ func checkCC(c ccCase) *vk.Failure {
 	if rr, rc := right.Dims(); rr != yd || (rc != yd && rc != k) {
 		return vk.Failf("cca-right-dims", "%dx%d %s", rr, rc, ctx)
 	}
+	// destinations that are views of sentinel-filled parents: same bits as with
+	// fresh destinations, parents untouched
+	if c.Seed%2 == 0 {
+		vk.Class("cca destinations are views")
+		_, lc := left.Dims()
+		_, rc := right.Dims()
+		sv, sbuf := sliceView(len(corrs), 1)
+		gotc := cc.CorrsTo(sv)
+		for i := range corrs {
+			if len(gotc) != len(corrs) || !vk.SameBits(gotc[i], corrs[i]) {
+				return vk.Failf("cca-corrs-destination-view", "CorrsTo(dst with spare capacity)=%v fresh %v %s", gotc, corrs, ctx)
+			}
+		}
+		if ok, i := sliceBufIntact(sbuf, len(corrs), 1); !ok {
+			return vk.Failf("cca-corrs-destination-view-parent-modified", "buffer element %d %s", i, ctx)
+		}
+		for _, sph := range []bool{false, true} {
+			var fl, fr mat.Dense
+			cc.LeftTo(&fl, sph)
+			cc.RightTo(&fr, sph)
+			lv, lp := denseView(xd, lc, 2, 1)
+			rv, rp := denseView(yd, rc, 1, 3)
+			cc.LeftTo(lv, sph)
+			cc.RightTo(rv, sph)
+			if !sameDense(lv, &fl) || !sameDense(rv, &fr) {
+				return vk.Failf("cca-vectors-destination-view", "LeftTo/RightTo(sphered=%v) into Dense.Slice views differ from fresh destinations %s", sph, ctx)
+			}
+			ok1, _, _ := denseParentIntact(lp, xd, lc, 2, 1)
+			ok2, _, _ := denseParentIntact(rp, yd, rc, 1, 3)
+			if !ok1 || !ok2 {
+				return vk.Failf("cca-vectors-destination-view-parent-modified", "sphered=%v %s", sph, ctx)
+			}
+		}
+	}
 	// the canonical variables X*a_i and Y*b_i have correlation corrs[i]
+	if sumW(w, n).f()-1 < 0.5 {
+		// The back-transformation involves the sample covariances, which are
+		// normalised by sum(w)-1: not defined for weights summing to one or less
+		// ("a biased variance estimator should be used").
+		vk.Class("cca back-transformed vectors skipped: weights sum to less than 1.5")
+		return deferred
+	}
 	for i := 0; i < k; i++ {
 		u1 := make([]float64, n)
 		v1 := make([]float64, n)
@@ -669,8 +878,18 @@ func checkCC(c ccCase) *vk.Failure {
 		if f := failClose("cca-variates-correlation", got, corrs[i], tol+1e-6*0, fmt.Sprintf("i=%d %s", i, ctx)); f != nil {
 			return f
 		}
+		// The back-transformed vectors are Sx^{-1/2} (Sy^{-1/2}) times the
+		// eigenvectors, Sx the sample covariance, so the canonical variables have
+		// unit sample variance (weighted: normalised by sum(w)-1 as in
+		// CovarianceMatrix, Variance and PC.VarsTo).
+		if Wf := sumW(w, n).f(); Wf-1 >= 0.5 {
+			vu, vv := stat.Variance(u1, w), stat.Variance(v1, w)
+			if (math.Abs(vu-1) > tol+1e-9 || math.Abs(vv-1) > tol+1e-9) && deferred == nil {
+				deferred = vk.Failf("cca-backtransform-weighted-scale", "canonical variables from LeftTo/RightTo(dst, false): Variance(X*a_%d, w)=%v Variance(Y*b_%d, w)=%v want 1; (n-1)/(sum(w)-1)=%v %s", i, vu, i, vv, float64(n-1)/(Wf-1), ctx)
+			}
+		}
 	}
-	return nil
+	return deferred
 }
 
 func TestCC(t *testing.T) {
